@@ -2,8 +2,11 @@ package engines
 
 import (
 	"fmt"
+	"strings"
 
+	"google.golang.org/protobuf/encoding/protowire"
 	"google.golang.org/protobuf/proto"
+	"google.golang.org/protobuf/reflect/protoreflect"
 	"pgregory.net/rapid"
 
 	"verif/kit/model"
@@ -32,7 +35,68 @@ func runC01(ctx *Ctx) {
 			mode := rapid.SampledFrom([]string{"default", "deterministic"}).Draw(rt, "mode")
 			return &Case{Type: string(t.Name), Bytes: hexs(b), Args: map[string]string{"mode": mode}}
 		}, func(c *Case) error { return checkC01(ctx, c) })
+		// one wide value per type: more children of ONE parent than any nesting
+		// limit counts (children are siblings, not levels)
+		if b := wideStream(t.Desc, 10050); b != nil {
+			c := &Case{Sub: "wide", Type: string(t.Name), Bytes: hexs(b), Args: map[string]string{"mode": "default"}}
+			ctx.Eval(1)
+			if err := safely(func() error { return checkC01(ctx, c) }); err != nil {
+				if strings.HasPrefix(err.Error(), "HARNESS") {
+					fmt.Printf("HARNESS-ERROR %v\n", err)
+				} else {
+					ctx.Violation(c, err.Error())
+				}
+				ctx.T.Fail()
+			} else {
+				ctx.Label("wide: 10050 message-typed children of one parent")
+			}
+		}
 	}
+}
+
+// wideStream encodes n empty children in the first repeated message field of
+// md, or n entries (distinct keys, empty values) in its first map with message
+// values and a string or varint key; nil if md has neither.
+func wideStream(md protoreflect.MessageDescriptor, n int) []byte {
+	fds := md.Fields()
+	for i := 0; i < fds.Len(); i++ {
+		fd := fds.Get(i)
+		if fd.IsList() && fd.Message() != nil {
+			var b []byte
+			for k := 0; k < n; k++ {
+				b = protowire.AppendBytes(protowire.AppendTag(b, fd.Number(), protowire.BytesType), nil)
+			}
+			return b
+		}
+	}
+	for i := 0; i < fds.Len(); i++ {
+		fd := fds.Get(i)
+		if !fd.IsMap() || fd.MapValue().Message() == nil {
+			continue
+		}
+		var b []byte
+		for k := 0; k < n; k++ {
+			var e []byte
+			switch fd.MapKey().Kind() {
+			case protoreflect.StringKind:
+				e = protowire.AppendString(protowire.AppendTag(e, 1, protowire.BytesType), fmt.Sprint("k", k))
+			case protoreflect.Int32Kind, protoreflect.Int64Kind, protoreflect.Uint32Kind, protoreflect.Uint64Kind:
+				e = protowire.AppendVarint(protowire.AppendTag(e, 1, protowire.VarintType), uint64(k))
+			default:
+				e = nil
+			}
+			if e == nil {
+				b = nil
+				break
+			}
+			e = protowire.AppendBytes(protowire.AppendTag(e, 2, protowire.BytesType), nil)
+			b = protowire.AppendBytes(protowire.AppendTag(b, fd.Number(), protowire.BytesType), e)
+		}
+		if b != nil {
+			return b
+		}
+	}
+	return nil
 }
 
 func checkC01(ctx *Ctx, c *Case) error {
